@@ -3,6 +3,10 @@
 package cluster
 
 import (
+	goset "github.com/deckarep/golang-set/v2"
+
+	"github.com/tochemey/olric/events"
+
 	"github.com/tochemey/goakt/v4/discovery"
 	"github.com/tochemey/goakt/v4/log"
 )
@@ -34,6 +38,44 @@ func VerifC34New(host string, peersPort int) *VerifC34 {
 	return &VerifC34{c: cl.(*cluster)}
 }
 
+// VerifC34Clone gives a fresh, empty bookkeeping state that shares the immutable configuration
+// (node, logger, …) of a cluster built by New: constructing the default configuration costs far
+// more than a whole history.  Used only by the exhaustive enumeration; ordinary cases call New.
+func VerifC34Clone(t *VerifC34) *VerifC34 {
+	src := t.c
+	c := &cluster{
+		name: src.name, node: src.node, logger: src.logger, readTimeout: src.readTimeout,
+		events:                  make(chan *Event, 16), // drained after every op; a step emits at most 4 events here
+		nodeJoinedEventsFilter:  goset.NewSet[string](),
+		nodeLeftEventsFilter:    goset.NewSet[string](),
+		nodeJoinTimestamps:      make(map[string]int64),
+		nodeLeftTimestamps:      make(map[string]int64),
+		rebalanceJoinNodeEpochs: make(map[string]uint64),
+		rebalanceLeftNodeEpochs: make(map[string]uint64),
+		rebalanceStartSeen:      make(map[uint64]struct{}),
+		rebalanceCompleteSeen:   make(map[uint64]struct{}),
+		running:                 src.running,
+	}
+	return &VerifC34{c: c}
+}
+
+// Apply calls the handler behind handleClusterEvent directly with a decoded notification
+// (kind: 'j' join, 'l' left, 'S' rebalance-start, 'C' rebalance-complete).  The exhaustive
+// enumeration uses it to skip the JSON decoding, which dominates the cost of a history; the
+// decoding and dispatch themselves are exercised by every ordinary case through Feed.
+func (v *VerifC34) Apply(kind byte, node, reason string, epoch uint64, ts int64) {
+	switch kind {
+	case 'j':
+		v.c.trackNodeJoinEvent(events.NodeJoinEvent{Kind: events.KindNodeJoinEvent, NodeJoin: node, Timestamp: ts})
+	case 'l':
+		v.c.trackNodeLeftEvent(events.NodeLeftEvent{Kind: events.KindNodeLeftEvent, NodeLeft: node, Timestamp: ts})
+	case 'S':
+		v.c.processRebalanceStart(events.RebalanceStartEvent{Kind: events.KindRebalanceStartEvent, Epoch: epoch, Reason: reason, Node: node, Timestamp: ts})
+	case 'C':
+		v.c.processRebalanceComplete(events.RebalanceCompleteEvent{Kind: events.KindRebalanceCompleteEvent, Epoch: epoch, Timestamp: ts})
+	}
+}
+
 func (v *VerifC34) Feed(payload string) error { return v.c.handleClusterEvent(payload) }
 
 func (v *VerifC34) Overdue(node string) { v.c.emitOverdueNodeLeft(node) }
@@ -55,6 +97,20 @@ func (v *VerifC34) Drain() []VerifC34Event {
 			return out
 		}
 	}
+}
+
+// Release drops the bookkeeping of a finished case.  trackNodeLeftEvent arms a 30 s
+// time.AfterFunc per tracked departure whose closure keeps the cluster alive; when millions of
+// histories are enumerated only the bare struct should stay reachable until the timer fires
+// (the callback then finds no pending departure: reading a nil map is fine).
+func (v *VerifC34) Release() {
+	x := v.c
+	x.eventsLock.Lock()
+	defer x.eventsLock.Unlock()
+	x.nodeJoinTimestamps, x.nodeLeftTimestamps = nil, nil
+	x.rebalanceJoinNodeEpochs, x.rebalanceLeftNodeEpochs = nil, nil
+	x.rebalanceStartSeen, x.rebalanceCompleteSeen = nil, nil
+	x.events = nil
 }
 
 func (v *VerifC34) State() VerifC34State {
